@@ -522,8 +522,7 @@ def run(prog, rep):
 NX = 'fim/graph/networkx_property_graph.py'
 MUTANTS = [
     {'name': 'add-node-props-override-identity', 'file': 'fim/graph/networkx_property_graph.py', 'rule': 'R9',
-     'find': "            self.storage.get_graph(self.graph_id).nodes[int_id].update(\n                {k: v for k, v in props.items() if k not in (ABCPropertyGraph.GRAPH_ID, ABCPropertyGraph.NODE_ID,\n                                                              ABCPropertyGraph.PROP_CLASS)})",
-     'replace': "            self.storage.get_graph(self.graph_id).nodes[int_id].update(props)"},
+     'find': '            {k: v for k, v in dict(props).items() if k not in (ABCPropertyGraph.GRAPH_ID, ABCPropertyGraph.NODE_ID,\n                                                               ABCPropertyGraph.PROP_CLASS)}', 'replace': '            dict(props)'},
     {'name': 'query-exception-without-node-id', 'file': 'fim/graph/networkx_property_graph.py', 'rule': 'R8',
      'find': "raise PropertyGraphQueryException(graph_id=self.graph_id, node_id=node_id,\n                                              msg=\"Unable to find graph\")",
      'replace': "raise PropertyGraphQueryException(graph_id=self.graph_id,\n                                              msg=\"Unable to find graph\")"},
